@@ -393,8 +393,9 @@ where
         let mut new_edge = None::<Edge<_, _>>;
         {
             let edge: &mut Edge<_, _>;
+            let reuse_vacant = self.free_edge != EdgeIndex::end();
 
-            if self.free_edge != EdgeIndex::end() {
+            if reuse_vacant {
                 edge_idx = self.free_edge;
                 edge = &mut self.g.edges[edge_idx.index()];
                 let _old = replace(&mut edge.weight, Some(weight));
@@ -441,6 +442,12 @@ where
                 }
             };
             if let Some(i) = wrong_index {
+                if reuse_vacant {
+                    // Undo the occupation of the vacant edge: put it back in the free list.
+                    edge.weight = None;
+                    edge.node = [NodeIndex::end(), NodeIndex::end()];
+                    self.free_edge = edge_idx;
+                }
                 return Err(GraphError::NodeMissed(i));
             }
             self.edge_count += 1;
